@@ -1323,7 +1323,8 @@ func runScenario(r *vf.Run, sc scenario, pool []*keys.Identity) {
 func TestCheck(t *testing.T) {
 	r := vf.Start(t, "C05", vf.FaultEnumeration)
 	defer r.Finish()
-	r.SetRule("scenario = (request kind in {Controller.DialPeerAddr, DialTptAddr directive, EstablishLinkWithPeer with a static peer map}) x (service sequence of address A over {X, impostor Y, nobody}, all sequences of length <= 3 without equal neighbours; thorough: plus 120 PRNG sequences of length 4-6) [+ variants in which a request for Y at A is satisfied first and X is requested while that link holds the address, + variants in which a first dial of A (unconstrained / requiring Y / requiring X, made through the controller resp. the transport's DialPeer) is held in flight by the harness' network while the request for X is made and released once the dial for X is parked behind it (goroutine state) with X resp. Y answering, + variants with a competing request for Y at the same address, + variants that repeat the request while the link to X is still up, + (hook tc.linkdialer.result) the link is lost while the link dialer is held between obtaining and recording its result, + variants in which every request spells the address differently from the remote address string its sessions report (a registered host name, another letter case, a trailing dot: the harness' networks resolve all of them to A), so that the link is dialed, lost and dialed again by the alias while X, the impostor or nobody serves it, + back-off options as a dimension: exponential instead of constant back-off (kind given / left at its zero value) on ordinary scenarios, and give-up scenarios (held request kind x later request kind x sequences in which X does not serve A first) whose exponential back-off carries max_elapsed_time in {1, 60, 150, 400} ms: the request is made and held while the impostor / nobody serves A until the controller's link dialer is SEEN ending without a link (hook tc.linkdialer.result, never a sleep) and its routine has come to rest (goroutine state), then X serves A and a NEW request of the later kind (DialPeerAddr call / DialTptAddr directive; never a directive the bus would merge into the held one) is made, + address take-over phases 'I' in the service sequence (XIX, XINX, IX, NIX; thorough also XIXIX, YXIX): the impostor takes A over and opens a session TO the local node which the node sees coming from A (datagram switch: NAT-style mapping; stream network: an incoming connection from A) while the node's link to X at A is still registered resp. before any request was made, with the loss reports reaching the controller only after it digested the impostor's link (the harness' handler tap keeps them back; hook tc.established tells when) or in the order the transport happens to deliver; afterwards nobody / X serves A]. Real transport controller + real pconn/quic transports over an in-memory datagram switch, resp. real conn (stream) transports over in-memory pipes, whose service table the harness rebinds between phases. A phase is left only when its observation point was reached (impostor completed handshakes / datagrams to A were dropped / link to X exists and the request returned); a scenario is non-trivial when all its phases reached it. Oracle (ground truth = the harness' service table): every success value of the request names X and appears only after X served A; while X serves A and a request is outstanding a link to X is eventually there -- refuted by a stuck state (no link to X, no goroutine in any dial routine on 5 consecutive observation points after the traffic counter towards A has been silent for 10), or by retries that never reach the network (progress oracle in logical steps: 3 consecutive windows of 25 failed dial attempts each reported by the dialer for X while not one datagram / connection attempt went towards A in the harness' network, no link of L was alive at the start or the end of a window and no goroutine was inside the transport's per-address dialer at the end of a window); in phases where X does not serve A the same two detectors only end the phase; after a dialer gave up the obligation is on the NEW request made once X serves A: it is satisfied with a link to X, or - stuck state reached - a link dialer must at least have run for it (a further 'ended without a link' result after the request: then the request is repeated, at most 6 times), else the later request can never be satisfied; links of different remote peers sharing one link UUID at the local transport are counted (sanity, C06's subject) but are no verdict of their own; a watchdog expiry is only inconclusive.")
+	r0 := ("scenario = (request kind in {Controller.DialPeerAddr, DialTptAddr directive, EstablishLinkWithPeer with a static peer map}) x (service sequence of address A over {X, impostor Y, nobody}, all sequences of length <= 3 without equal neighbours; thorough: plus 120 PRNG sequences of length 4-6) [+ variants in which a request for Y at A is satisfied first and X is requested while that link holds the address, + variants in which a first dial of A (unconstrained / requiring Y / requiring X, made through the controller resp. the transport's DialPeer) is held in flight by the harness' network while the request for X is made and released once the dial for X is parked behind it (goroutine state) with X resp. Y answering, + variants with a competing request for Y at the same address, + variants that repeat the request while the link to X is still up, + (hook tc.linkdialer.result) the link is lost while the link dialer is held between obtaining and recording its result, + variants in which every request spells the address differently from the remote address string its sessions report (a registered host name, another letter case, a trailing dot: the harness' networks resolve all of them to A), so that the link is dialed, lost and dialed again by the alias while X, the impostor or nobody serves it, + back-off options as a dimension: exponential instead of constant back-off (kind given / left at its zero value) on ordinary scenarios, and give-up scenarios (held request kind x later request kind x sequences in which X does not serve A first) whose exponential back-off carries max_elapsed_time in {1, 60, 150, 400} ms: the request is made and held while the impostor / nobody serves A until the controller's link dialer is SEEN ending without a link (hook tc.linkdialer.result, never a sleep) and its routine has come to rest (goroutine state), then X serves A and a NEW request of the later kind (DialPeerAddr call / DialTptAddr directive; never a directive the bus would merge into the held one) is made, + address take-over phases 'I' in the service sequence (XIX, XINX, IX, NIX; thorough also XIXIX, YXIX): the impostor takes A over and opens a session TO the local node which the node sees coming from A (datagram switch: NAT-style mapping; stream network: an incoming connection from A) while the node's link to X at A is still registered resp. before any request was made, with the loss reports reaching the controller only after it digested the impostor's link (the harness' handler tap keeps them back; hook tc.established tells when) or in the order the transport happens to deliver; afterwards nobody / X serves A]. Real transport controller + real pconn/quic transports over an in-memory datagram switch, resp. real conn (stream) transports over in-memory pipes, whose service table the harness rebinds between phases. A phase is left only when its observation point was reached (impostor completed handshakes / datagrams to A were dropped / link to X exists and the request returned); a scenario is non-trivial when all its phases reached it. Oracle (ground truth = the harness' service table): every success value of the request names X and appears only after X served A; while X serves A and a request is outstanding a link to X is eventually there -- refuted by a stuck state (no link to X, no goroutine in any dial routine on 5 consecutive observation points after the traffic counter towards A has been silent for 10), or by retries that never reach the network (progress oracle in logical steps: 3 consecutive windows of 25 failed dial attempts each reported by the dialer for X while not one datagram / connection attempt went towards A in the harness' network, no link of L was alive at the start or the end of a window and no goroutine was inside the transport's per-address dialer at the end of a window); in phases where X does not serve A the same two detectors only end the phase; after a dialer gave up the obligation is on the NEW request made once X serves A: it is satisfied with a link to X, or - stuck state reached - a link dialer must at least have run for it (a further 'ended without a link' result after the request: then the request is repeated, at most 6 times), else the later request can never be satisfied; links of different remote peers sharing one link UUID at the local transport are counted (sanity, C06's subject) but are no verdict of their own; a watchdog expiry is only inconclusive.")
+	r.SetRule(r0 + " Direct-call histories (bare stream transport, no controller; re-binding A resets NOTHING: X's and Y's endpoints both stay alive and links made under an earlier binding stay up): sequences of {A served by X / Y / nobody, Transport.DialPeer(X / Y / any, A), Transport.HandleConn(dial=true, connection to whoever serves A, A, X / Y / any)} - a fixed core (each entry point x each entry point, after A was linked with Y on request / without constraint, after Y resp. X answered a request for the other peer) plus PRNG histories of 3-7 ops; oracle: a successful call returns a link naming the requested peer (or, for DialPeer's 'already connected', a link to that peer was returned before); after the history every link a successful call returned is closed and reported lost, X serves A, no dialer routine runs: DialPeer(X, A) must then succeed with a link to X (3 attempts, each after the dialer routines are at rest); every link reported established to the dialing node's handler must name a peer some request asked for (or a request without constraint exists): a refused dial leaves no established report.")
 	r.Assume("the link's reported remote peer is authentic (that is C03)")
 	r.Assume("goroutines of a scenario are found by an inherited pprof label; dial goroutines without label make the stuck detector abstain")
 
@@ -1532,10 +1533,31 @@ func TestCheck(t *testing.T) {
 		scs = sel
 	}
 	r.Extra("scenarios", len(scs))
+	// direct-call histories on a bare stream transport (direct_test.go)
+	dhs := directHistories(r, r.N(40, 400))
+	if only := os.Getenv("VERIF_C05_ONLY"); only != "" {
+		var sel []directHistory
+		for _, h := range dhs {
+			if strings.Contains(h.String(), only) {
+				sel = append(sel, h)
+			}
+		}
+		dhs = sel
+	}
+	r.Extra("direct_histories", len(dhs))
 
 	par := 16
 	sem := make(chan struct{}, par)
 	var wg sync.WaitGroup
+	for _, h := range dhs {
+		wg.Add(1)
+		sem <- struct{}{}
+		go func(h directHistory) {
+			defer wg.Done()
+			defer func() { <-sem }()
+			runDirect(r, h, pool)
+		}(h)
+	}
 	for _, sc := range scs {
 		wg.Add(1)
 		sem <- struct{}{}
